@@ -12,6 +12,9 @@
 //                      to_ascii(x with ASCII letters case-flipped),
 //                      to_ascii(x with U+00AD inserted at byte offset pos)
 //   Q <x> <y>          eqv: to_ascii(x), to_ascii(y) for canonically equivalent x, y
+//   KE <cp,cp,...>     blocks: utf32_to_utf8 / utf8_to_utf32 with their length predictors, utf32_to_punycode,
+//                      punycode_to_utf32 and verify_punycode of the result
+//   KD <x>             pdec: punycode_to_utf32(x), verify_punycode(x), re-encoding of the decoded string
 //   V <x> <0|1> <out>  vec: a published conformance vector (input, fails?, expected host);
 //                      no library call -- the line is copied into the trace so that the
 //                      SPECIFICATION is validated against the vector in the same run
@@ -107,6 +110,51 @@ static void op_eqv(const std::string& x, const std::string& y) {
   out().line(s);
 }
 
+static std::string jcps(const std::u32string& u) {
+  std::string r = "[";
+  for (size_t i = 0; i < u.size(); i++) r += (i ? "," : "") + std::to_string((uint32_t)u[i]);
+  return r + "]";
+}
+
+// the building blocks of ada::idna taken one by one (public functions of ada/ada_idna.h): UTF-32 <-> UTF-8 transcoding
+// with the length predictors, the Punycode encoder, the decoder and its allocation-free twin verify_punycode
+static void op_blocks(const std::u32string& u) {
+  out().pending = "blocks";
+  size_t l8 = ada::idna::utf8_length_from_utf32(u.data(), u.size());
+  std::string u8(l8 + 8, '\xEE');                     // 8 guard bytes: the writer must stay inside the predicted length
+  size_t w8 = ada::idna::utf32_to_utf8(u.data(), u.size(), u8.data());
+  bool guard8 = true;
+  for (size_t i = l8; i < u8.size(); i++) guard8 = guard8 && u8[i] == '\xEE';
+  u8.resize(w8 <= l8 ? w8 : l8);
+  Arg a8(u8);
+  size_t l32 = ada::idna::utf32_length_from_utf8(a8.p.get(), a8.n);
+  std::u32string back(l32 + 2, U'\xEEEE');
+  size_t w32 = ada::idna::utf8_to_utf32(a8.p.get(), a8.n, back.data());
+  bool guard32 = back[l32] == U'\xEEEE' && back[l32 + 1] == U'\xEEEE';
+  back.resize(w32 <= l32 ? w32 : l32);
+  std::string pe;
+  bool peok = ada::idna::utf32_to_punycode(u, pe);
+  std::u32string pd;
+  Arg ape(pe);
+  bool pdok = ada::idna::punycode_to_utf32(ape.sv(), pd);
+  bool pv = ada::idna::verify_punycode(ape.sv());
+  out().line("{\"e\":\"blocks\",\"cps\":" + jcps(u) + ",\"l8\":" + std::to_string(l8) + ",\"w8\":" + std::to_string(w8) + ",\"u8\":" + jbytes(u8) +
+             ",\"l32\":" + std::to_string(l32) + ",\"w32\":" + std::to_string(w32) + ",\"back\":" + jcps(back) + ",\"guards\":" + jb(guard8 && guard32) +
+             ",\"peok\":" + jb(peok) + ",\"pe\":" + jbytes(pe) + ",\"pdok\":" + jb(pdok) + ",\"pd\":" + jcps(pd) + ",\"pv\":" + jb(pv) + "}");
+}
+
+static void op_pdec(const std::string& x) {
+  out().pending = "pdec";
+  Arg a(x);
+  std::u32string pd;
+  bool ok = ada::idna::punycode_to_utf32(a.sv(), pd);
+  bool pv = ada::idna::verify_punycode(a.sv());
+  std::string re;
+  bool reok = ok && ada::idna::utf32_to_punycode(pd, re);
+  out().line("{\"e\":\"pdec\",\"in\":" + jbytes(x) + ",\"ok\":" + jb(ok) + ",\"cps\":" + jcps(ok ? pd : std::u32string()) + ",\"pv\":" + jb(pv) +
+             ",\"reok\":" + jb(reok) + ",\"re\":" + jbytes(re) + "}");
+}
+
 int main(int argc, char** argv) {
   if (argc < 3) {
     fprintf(stderr, "usage: %s <ops file> <trace out>\n", argv[0]);
@@ -132,6 +180,13 @@ int main(int argc, char** argv) {
     else if (op == "AP") { ss >> a; op_toascii(unhex(a), true); }   // a single label of unmapped, NFC-stable letters (see gen_idna.w_puny_plain)
     else if (op == "W") { size_t pos = 0; ss >> a >> pos; op_law(unhex(a), pos); }
     else if (op == "Q") { ss >> a >> b; op_eqv(unhex(a), unhex(b)); }
+    else if (op == "KE") {
+      ss >> a;
+      std::u32string u;
+      if (a != "-") { std::stringstream cs(a); std::string t; while (std::getline(cs, t, ',')) u.push_back((char32_t)std::stoul(t)); }
+      op_blocks(u);
+    }
+    else if (op == "KD") { ss >> a; op_pdec(unhex(a)); }
     else if (op == "V") {
       int fail = 0;
       ss >> a >> fail >> b;
